@@ -157,8 +157,9 @@ def enum_from_source(path, name):
         depth += {"{": 1, "}": -1}.get(src[i], 0)
         i += 1
     body = src[start:i - 1]
+    body = re.sub(r'"(?:[^"\\]|\\.)*"', '""', body)
     body = re.sub(r"//[^\n]*", "", body)
-    body = re.sub(r"#\[[^\]]*\]", "", body)
+    body = re.sub(r"#\[(?:[^\[\]]|\[[^\]]*\])*\]", "", body)
     out, depth, cur = [], 0, ""
     for ch in body:
         if ch in "({[<":
